@@ -231,7 +231,10 @@ public:
 				{
 					return std::make_optional<PugiXmlArrayScope<TMode>>(xmlNode, TArchiveScope<TMode>::GetContext());
 				}
-				PugiXmlExtensions::HandleMismatchedTypesPolicy(this->GetContext().GetOptions().mismatchedTypesPolicy);
+				// Empty node is treated as Null (which is excluded from MismatchedTypesPolicy processing)
+				if (!xmlNode.first_child().empty()) {
+					PugiXmlExtensions::HandleMismatchedTypesPolicy(this->GetContext().GetOptions().mismatchedTypesPolicy);
+				}
 			}
 			return std::nullopt;
 		}
@@ -252,7 +255,10 @@ public:
 				{
 					return std::make_optional<PugiXmlObjectScope<TMode>>(xmlNode, TArchiveScope<TMode>::GetContext());
 				}
-				PugiXmlExtensions::HandleMismatchedTypesPolicy(this->GetContext().GetOptions().mismatchedTypesPolicy);
+				// Empty node is treated as Null (which is excluded from MismatchedTypesPolicy processing)
+				if (!xmlNode.first_child().empty()) {
+					PugiXmlExtensions::HandleMismatchedTypesPolicy(this->GetContext().GetOptions().mismatchedTypesPolicy);
+				}
 			}
 			return std::nullopt;
 		}
@@ -459,7 +465,10 @@ public:
 				{
 					return std::make_optional<PugiXmlObjectScope<TMode>>(child, TArchiveScope<TMode>::GetContext());
 				}
-				PugiXmlExtensions::HandleMismatchedTypesPolicy(this->GetContext().GetOptions().mismatchedTypesPolicy);
+				// Empty node is treated as Null (which is excluded from MismatchedTypesPolicy processing)
+				if (!child.first_child().empty()) {
+					PugiXmlExtensions::HandleMismatchedTypesPolicy(this->GetContext().GetOptions().mismatchedTypesPolicy);
+				}
 			}
 			return std::nullopt;
 		}
@@ -481,7 +490,10 @@ public:
 				{
 					return std::make_optional<PugiXmlArrayScope<TMode>>(node, TArchiveScope<TMode>::GetContext());
 				}
-				PugiXmlExtensions::HandleMismatchedTypesPolicy(this->GetContext().GetOptions().mismatchedTypesPolicy);
+				// Empty node is treated as Null (which is excluded from MismatchedTypesPolicy processing)
+				if (!node.first_child().empty()) {
+					PugiXmlExtensions::HandleMismatchedTypesPolicy(this->GetContext().GetOptions().mismatchedTypesPolicy);
+				}
 			}
 			return std::nullopt;
 		}
